@@ -5,7 +5,8 @@
  *   prog <tokens>       one program, executed in a forked child (an uncaught exception ends the process)
  *
  * program grammar (prefix, blank separated):
- *   T <mask> ( stmts ) ( stmts )    try { body } catch (e in <kinds of mask>) { handler };  mask 0 = catch (e): everything
+ *   T <mask> ( stmts ) ( stmts )    try { body } catch (e in <kinds of mask>) { handler };  mask 0 = catch (e): everything;
+ *                                   mask 8 + m: the kinds of m, one of them yielded by a function that runs a try block of its own
  *   X <k>                           throw kind k (1 TypeError, 2 ValueError, 3 KeyError)
  *   M                               a visible statement
  *   C ( stmts )                     the statements run in a nested C function call
@@ -67,7 +68,26 @@ static void run_list(int first);
                                run_list((n)->handler); ev_begin("handlerend"); ev_int("fid", fid); ev_end(); }
 #define BODY(fid, n) { run_list((n)->body); ev_begin("bodyend"); ev_int("fid", fid); ev_end(); }
 
+/* a filter EXPRESSION that runs a complete try / catch of its own before it yields the kind (masks 9 .. 15 = 8 + the kinds) */
+static var __attribute__((noinline)) via_try(var k) { try { throw(IOError, "inside the filter expression"); } catch (e in IOError) { } return k; }
+/* (in a function of its own: every try block has a jmp_buf in the frame, and run_try is 2048 deep in the deepest programs) */
+static void __attribute__((noinline)) run_try_via(struct PNode* n) {
+  int fid = ++fid_counter;
+  ev_begin("try"); ev_int("fid", fid); ev_int("mask", n->arg); ev_int("depth", depth_now()); ev_end();
+  switch (n->arg) {
+    case 9: try BODY(fid, n) catch (e in via_try(TypeError)) HANDLER_BODY(fid, n) break;
+    case 10: try BODY(fid, n) catch (e in via_try(ValueError)) HANDLER_BODY(fid, n) break;
+    case 11: try BODY(fid, n) catch (e in via_try(TypeError), ValueError) HANDLER_BODY(fid, n) break;
+    case 12: try BODY(fid, n) catch (e in via_try(KeyError)) HANDLER_BODY(fid, n) break;
+    case 13: try BODY(fid, n) catch (e in KeyError, via_try(TypeError)) HANDLER_BODY(fid, n) break;
+    case 14: try BODY(fid, n) catch (e in via_try(ValueError), via_try(KeyError)) HANDLER_BODY(fid, n) break;
+    case 15: try BODY(fid, n) catch (e in TypeError, ValueError, via_try(KeyError)) HANDLER_BODY(fid, n) break;
+  }
+  ev_begin("after"); ev_int("fid", fid); ev_int("depth", depth_now()); ev_end();
+}
+
 static void __attribute__((noinline)) run_try(struct PNode* n) {
+  if (n->arg >= 8) { run_try_via(n); return; }
   int fid = ++fid_counter;
   ev_begin("try"); ev_int("fid", fid); ev_int("mask", n->arg); ev_int("depth", depth_now()); ev_end();
   switch (n->arg) {
